@@ -13,6 +13,8 @@ column-table codec `mc.ref.tle_codec`:
 * wargs    the writer's identification arguments / defaults (name, norad_id, cospar_id);
 * epochs   (real IERS tables configured) epoch round trips in both halves of years with a 30 June leap
            second, a 31 December leap second, and none;
+* scales   the orbit of a TLE with its date re-expressed in TT / GPS / TAI (same instant) writes the same text
+           (under zero EOP and under the real IERS tables);
 * hist     explicit-state part: every short history on ONE Tle object (built by the constructor or yielded
            by from_string) of {tle.orbit(), in-place edits of a returned orbit, write it back, round trip,
            inspect}, each from the pristine library state: the Tle never changes, every orbit() call
@@ -152,6 +154,8 @@ def units(tier, seed):
     for j in range(eparts):
         u.append((CFG_REAL, dict(part="epochs", j=j, parts=eparts)))
     u.append((CFG_REAL, dict(part="offgrid")))
+    u.append((cfg, dict(part="scales")))
+    u.append((CFG_REAL, dict(part="scales")))
     # histories on one Tle object
     depth = 4 if tier == "quick" else 5
     hparts = 16 if tier == "quick" else 64
@@ -214,6 +218,9 @@ def run_unit(p, t):
     elif p["part"] == "wargs":
         for case in wargs_cases():
             check_wargs(case, t)
+    elif p["part"] == "scales":
+        for case in scale_cases():
+            check_scale(case, t)
     elif p["part"] == "epochs":
         for j, ep in enumerate(epoch_alphabet()):
             if j % p["parts"] == p["j"]:
@@ -233,6 +240,8 @@ def replay(case, t):
         check_rt(case["idx"], t, epoch=case.get("epoch"))
     elif case["part"] == "hist":
         check_history(case, t, isolate=False)
+    elif case["part"] == "scales":
+        check_scale(case, t)
     elif case["part"] == "corrupt":
         check_corruption(case, t)
     elif case["part"] == "offgrid":
@@ -984,6 +993,53 @@ def check_history(case, t, isolate):
                         probe.failures = hit[:1] + [f for f in probe.failures if f["signature"] != sig]
                         break
     t.merge(probe)
+
+
+# ---------------------------------------------------------------------------
+# scales: the written TLE does not depend on the time-scale label of the orbit's date
+
+SCALE_EPOCHS = ["16124.55610684", "12100.51782528", "12264.25000000", "99365.99999999", "00001.00000000", "83200.51782528"]
+SCALE_NAMES = ["TT", "GPS", "TAI"]  # offsets of whole microseconds: the relabelling is exact (UT1 / TDB are C03's business)
+
+
+def scale_cases():
+    return [dict(part="scales", epoch=e, scale=sc, via=via, config=dict(_CFG)) for e in SCALE_EPOCHS for sc in SCALE_NAMES
+            for via in ("relabel", "copy-relabel")]
+
+
+def check_scale(case, t):
+    """tle.orbit() with its date re-expressed in another scale (same instant) must write the text of the UTC-dated orbit."""
+    from mc.ref import tle_codec as tc
+    from beyond.io.tle import Tle
+
+    name, l1, l2 = build_text([0] * NF, case["epoch"])
+    text = l1 + "\n" + l2
+    t.states_add(1)
+    t.ev((case["epoch"], case["scale"], case["via"]))
+    try:
+        orb = Tle(text).orbit()
+        if case["via"] == "copy-relabel":
+            orb = orb.copy()
+        orb.date = orb.date.change_scale(case["scale"])
+        w = Tle.from_orbit(orb)
+        out = str(w)
+        t.trans(3)
+    except Exception as e:
+        t.fail(f"tle/date-scale/{case['scale']}/raises", "an orbit dated in another time scale can be written as a TLE", case, text, repr(e))
+        return
+    t.outcome(("scales", case["scale"], out == text))
+    if out == text:
+        return
+    o = out.split("\n")
+    try:
+        dec_in, dec_out = tc.decode(l1, l2), tc.decode(o[-2], o[-1])
+        d_us = abs(tc.epoch_us(dec_out) - tc.epoch_us(dec_in))
+        others_equal = all(dec_in[k] == dec_out[k] for k in dec_in if not k.startswith("epoch"))
+    except Exception:
+        d_us, others_equal = None, False
+    t.fail(f"tle/date-scale/{case['scale']}/epoch-written-in-date-scale" if others_equal else f"tle/date-scale/{case['scale']}/fields-differ",
+           "Tle.from_orbit writes the epoch in UTC whatever the time scale of the orbit's date (same instant -> same text)", case, text, out,
+           f"epoch shift {d_us} us" if d_us is not None else "")
 
 
 # ---------------------------------------------------------------------------
